@@ -123,7 +123,9 @@ def run(ctx):
                 if root.startswith('self.'):
                     fld_ = root[len('self.'):]
                     drawn[sampler].setdefault(fld_, []).append(site)
-                    ctx.ok('C07.R7.1', anchor, 'draw:' + slot_of(site) + '<-' + root, expected='sampler-owned generator', found=root, sp=site.sp,
+                    slot = 'draw:' + slot_of(site) + '<-' + root
+                    nth = sum(1 for o in ctx.obs if o.oid == 'C07.R7.1' and o.anchor == anchor and (o.slot == slot or o.slot.startswith(slot + '~')))
+                    ctx.ok('C07.R7.1', anchor, slot if nth == 0 else '%s~%d' % (slot, nth + 1), expected='sampler-owned generator', found=root, sp=site.sp,
                            why='draw consumes a generator stored in the sampler/chain')
                 else:
                     ctx.bad('C07.R7.1', anchor, 'draw:' + slot_of(site), rule='foreign-generator', expected='generator rooted at a field of the sampler/chain',
